@@ -94,7 +94,20 @@ fn strip_all_loc(stderr: &str) -> String {
     strip_loc(stderr)
 }
 
+/// answers computed ahead of time by `gen` (the CLI spawns of a tier run on several threads; the
+/// answer of a request does not depend on when it is computed)
+static PREFILLED: std::sync::OnceLock<std::sync::Mutex<std::collections::HashMap<String, String>>> = std::sync::OnceLock::new();
+
 pub fn exec(a: &[&str]) -> String {
+    if let Some(m) = PREFILLED.get() {
+        if let Some(v) = m.lock().unwrap().get(&a.join(" ")) {
+            return v.clone();
+        }
+    }
+    exec_now(a)
+}
+
+fn exec_now(a: &[&str]) -> String {
     match a[0] {
         // run <prog hex> <input hex>,<input hex>,…  ->  S<status>|seg|seg|…|E:<stderr hex>
         "run" => {
@@ -118,6 +131,12 @@ pub fn exec(a: &[&str]) -> String {
                     "objshorthand"
                 } else if prog.contains("@") && prog.contains(" \"") {
                     "fmtstring"
+                } else if prog.contains("@base32") && err.contains("unknown format") {
+                    // succinctly has no `@base32` / `@base32d` (C24-F29)
+                    "base32"
+                } else if prog.contains("??") && err.contains("found '?'") {
+                    // a second `?` on a term (`"v"??`, `(f)??`) is a parse error in succinctly (C24-F26)
+                    "doubleopt"
                 } else {
                     "other"
                 };
@@ -187,6 +206,32 @@ pub fn exec(a: &[&str]) -> String {
 }
 
 pub fn gen(tier: Tier, r: &mut Rng, emit: &mut dyn FnMut(String)) {
+    let mut reqs: Vec<String> = Vec::new();
+    gen_requests(tier, r, &mut |s| reqs.push(s));
+    // the CLI spawns dominate the cost: compute the answers on several threads, then emit in order
+    let workers = std::thread::available_parallelism().map(|n| n.get()).unwrap_or(4).clamp(1, 12);
+    let cache = PREFILLED.get_or_init(Default::default);
+    std::thread::scope(|sc| {
+        for w in 0..workers {
+            let reqs = &reqs;
+            sc.spawn(move || {
+                for req in reqs.iter().skip(w).step_by(workers) {
+                    let parts: Vec<&str> = req.split(' ').skip(1).collect();
+                    if parts.is_empty() {
+                        continue;
+                    }
+                    let v = exec_now(&parts);
+                    cache.lock().unwrap().insert(parts.join(" "), v);
+                }
+            });
+        }
+    });
+    for req in reqs {
+        emit(req);
+    }
+}
+
+fn gen_requests(tier: Tier, r: &mut Rng, emit: &mut dyn FnMut(String)) {
     gen_runs(tier, r, emit);
     // Replays the recorded jq 1.7.1 cases ($SV_C24_DIR/*.list, regenerated by tools/gen_c24_corpus.py):
     // every 6th case in the quick tier (process spawns), all of them in the thorough tier. The
@@ -212,20 +257,21 @@ pub fn gen(tier: Tier, r: &mut Rng, emit: &mut dyn FnMut(String)) {
     }
 }
 
-/// generated core-fragment programs x 3 inputs per CLI spawn
+/// generated core-fragment programs x 3 (quick) / 12 (thorough) inputs per CLI spawn
 fn gen_runs(tier: Tier, r: &mut Rng, emit: &mut dyn FnMut(String)) {
     use crate::c23::{gen_json, gen_program, gen_root, tame_big_numbers, Ty};
     // order-sensitive programs on object families (one key set, permuted insertion orders)
     for p in ["reverse | sort", "unique", "min", "[.[0] < .[1], .[1] < .[0]]"] {
         emit(format!("C24 run {} {}", hex_bytes(p.as_bytes()), hex_bytes(crate::c23::FAMILY_FIXED.as_bytes())));
     }
-    for _ in 0..(if tier == Tier::Quick { 40 } else { 4_000 }) {
+    for _ in 0..(if tier == Tier::Quick { 40 } else { 600 }) {
         let p = *r.pick(crate::c23::ORDER_PROGS);
-        let inputs: Vec<String> = (0..3).map(|_| hex_bytes(crate::c23::gen_family(r).as_bytes())).collect();
+        let inputs: Vec<String> = (0..(if tier == Tier::Quick { 3 } else { 6 })).map(|_| hex_bytes(crate::c23::gen_family(r).as_bytes())).collect();
         emit(format!("C24 run {} {}", hex_bytes(p.as_bytes()), inputs.join(",")));
     }
-    let n = if tier == Tier::Quick { 250 } else { 40_000 };
-    let per_spawn = if tier == Tier::Quick { 3 } else { 5 };
+    // thorough: fewer CLI spawns with more inputs each (the spawn dominates the cost): 6 000 x 12
+    let n = if tier == Tier::Quick { 250 } else { 6_000 };
+    let per_spawn = if tier == Tier::Quick { 3 } else { 12 };
     for i in 0..n {
         let depth = 1 + (i % 4) as u32;
         let typed = r.chance(4, 5);
